@@ -134,6 +134,7 @@ func c07(c *Ctx) (*report.Result, error) {
 	res.RuleDoc["O7.3"] = "remap: in handleStream's LCM case the forwarded client shard id is the incoming LCM shard id, the server shard id is mapShardIDUnique(LCM, TargetShardCount, incoming id) with arguments in that order, cluster ids are carried over unswapped, and all four metadata keys are set before the forwarder is built"
 	res.RuleDoc["O7.5"] = "every LCM shard id can open a stream: the stream handler reports the shard to the observer before forwarding, and the observer's slot access is guarded by a test against the length of the indexed slice (same analysis as O20.9) - LCM shard ids run up to local x remote, far beyond the table's initial size"
 	checkObserverIndexGuard(c, res, "O7.5")
+	res.RuleDoc["O7.6"] = "no shard id of the presented space is refused on the way in: an error return of the stream handler that depends on the decoded shard id may reject only ids below 1 or above the LCM (`< 1`, `<= 0`, `> LCM`): Temporal shard ids are 1-based, so `>= LCM` or `< 2` style bounds refuse a valid shard"
 	res.RuleDoc["O7.4"] = "the mapping must be single-valued: mapShardIDUnique returns element 0 only under len == 1 and panics otherwise; common.LCM is a*b/GCD(a,b)"
 
 	checkShardParams(c, res, shardParamsCheck{rule: "O7.1", field: "lcmParameters", closureField: "TargetShardCount",
@@ -367,6 +368,7 @@ after72:
 
 	res.Explanation = "SSA of proxy.NewClusterConnection (which direction flag each server's LCMParameters closure call gets, what that flag selects inside the closure, and which cluster the server's forwarding client was created for), of adminServiceProxyServer.DescribeCluster (the override store, its mode guard, and that every non-error/non-bypass return passes it), of handleStream's LCM case (origin of each of the four metadata values, argument order of mapShardIDUnique, dominance over the forwarder construction) and of mapShardIDUnique / common.LCM / common.GCD (shape). Decides the wiring and shape of the LCM presentation; the arithmetic properties of the mapping for all count pairs (uniqueness, range, hash consistency, int32 overflow of a*b) are values, not shapes, and are not decided."
 	res.Assumptions = []string{"servercommon.MapShardID implements Temporal's shard mapping", "history metadata keys name client = initiator, server = serving side"}
+	checkShardIDRejections(c, res, "O7.6")
 	return res, nil
 }
 
@@ -524,4 +526,79 @@ func lcmMode(c *Ctx) string {
 		return v
 	}
 	return "lcm"
+}
+
+// checkShardIDRejections: see O7.6.
+func checkShardIDRejections(c *Ctx, res *report.Result, rule string) {
+	f := resolve(c, res, rule, anchor{"proxy", "*adminServiceProxyServer", "StreamWorkflowReplicationMessages"})
+	if f == nil {
+		return
+	}
+	n := 0
+	for _, b := range f.Blocks {
+		for _, ins := range b.Instrs {
+			iff, ok := ins.(*ssa.If)
+			if !ok {
+				continue
+			}
+			bo, ok := iff.Cond.(*ssa.BinOp)
+			if !ok {
+				continue
+			}
+			px, _ := flow.FieldPath(bo.X)
+			py, _ := flow.FieldPath(bo.Y)
+			var op token.Token
+			var other ssa.Value
+			switch {
+			case strings.HasSuffix(px, ".ShardID"):
+				op, other = bo.Op, bo.Y
+			case strings.HasSuffix(py, ".ShardID"):
+				// normalise to ShardID on the left
+				other = bo.X
+				switch bo.Op {
+				case token.LSS:
+					op = token.GTR
+				case token.LEQ:
+					op = token.GEQ
+				case token.GTR:
+					op = token.LSS
+				case token.GEQ:
+					op = token.LEQ
+				default:
+					op = bo.Op
+				}
+			default:
+				continue
+			}
+			if op != token.LSS && op != token.LEQ && op != token.GTR && op != token.GEQ {
+				continue
+			}
+			// does the true side lead to an error return before anything is forwarded?
+			rejects := false
+			for _, bb := range f.Blocks {
+				if bb != b.Succs[0] && !(b.Succs[0].Dominates(bb)) {
+					continue
+				}
+				if len(bb.Instrs) == 0 {
+					continue
+				}
+				if ret, isR := bb.Instrs[len(bb.Instrs)-1].(*ssa.Return); isR && len(ret.Results) == 1 && !flow.IsNilConst(flow.Ret(ret)[0]) {
+					rejects = true
+				}
+			}
+			if !rejects {
+				continue
+			}
+			n++
+			okBound := false
+			desc := flow.Describe(iff.Cond)
+			if k, isK := flow.ConstInt(other); isK {
+				okBound = (op == token.LSS && k <= 1) || (op == token.LEQ && k <= 0)
+			} else if p, _ := flow.FieldPath(other); strings.HasSuffix(p, ".LCM") || strings.HasSuffix(p, "ShardCount") {
+				okBound = op == token.GTR
+			}
+			res.Check(okBound, rule, fmt.Sprintf("StreamWorkflowReplicationMessages: shard-id rejection #%d refuses only ids outside 1..count", n), instrPos(c.Prog, iff), desc, "the stream is refused under "+desc+": with 1-based shard ids this refuses a valid shard of the presented space (e.g. s == LCM), whose stream is then never forwarded")
+		}
+	}
+	res.Analysed["shard_id_rejections"] = n
 }
